@@ -41,6 +41,7 @@ def gen(rng):
     locs = [t for t in TG.trash_locations(L) if t[2]]
     n = rng.choice([1, 2, 3, 4])
     cross = False
+    twins = [0]
     for i in range(n):
         tdir, top, _u = rng.choice(locs)
         nm = 'ent%d' % i
@@ -64,6 +65,10 @@ def gen(rng):
             steps.append(['d', base + '/empty', 0o700])
         else:
             G.add_trashed(steps, tdir, nm, pv, date, kind, tag=str(i))
+        if cmd == 'trash-restore' and rng.random() < 0.2:
+            # an older generation of the same path: selected together, the second one finds its destination taken and stays
+            G.add_trashed(steps, tdir, nm + '_1', pv, '20%02d-06-06T06:06:06' % rng.randint(10, 24), rng.choice(['file', 'dir', 'link']), tag='%d-older' % i)
+            twins[0] += 1
     if cmd in ('trash-empty', 'trash-rm') and rng.random() < 0.02:
         # an entry nested deeper than the interpreter's recursion limit: shutil.rmtree gives up on it with RecursionError;
         # whatever the command does then, the payload that is still there keeps its .trashinfo
@@ -73,9 +78,9 @@ def gen(rng):
     if cmd == 'trash-empty' and rng.random() < 0.5:
         steps.append(['f', locs[0][0] + '/files/orphan1', 'o', 0o644])
     if cmd == 'trash-restore':
-        sel = list(range(n))
+        sel = list(range(n + twins[0]))
         rng.shuffle(sel)
-        sel = sel[:rng.randint(1, n)]
+        sel = sel[:rng.randint(1, n + twins[0])]
         argv = ['trash-restore', '--sort=path', '/']
         spec = {'argv': argv, 'env': env, 'cwd': '/', 'uid': uid, 'stdin': ','.join(map(str, sel)) + '\n'}
     elif cmd == 'trash-empty':
